@@ -1,14 +1,14 @@
 // C08 — mock verdict is exact.
 // Decoder: a scenario over an own MockSupport object (scopes "", "a", "b") with a recording, non-terminating
-//          MockFailureReporter: 4 functions with fixed signatures (0..3 typed inputs, 0..2 output parameters, optional
-//          object pool, optional ignore-other-parameters, optional return type), 1..6 expectations (expectOneCall /
-//          expectNCalls(0..3) / expectNoCall), per-scope strict order, ignoreOtherCalls; actual calls = the expansion of the
-//          expectation multiset, permuted, then 0..2 mutations, parameters passed in a decoded order.
-// Oracle:  independent multiset model (DESIGN.md appendix A.1): a call is judged by "is the prefix of what was passed
-//          still consistent with some open expectation of that function"; compared are the position of the single report
-//          (call index + begin/parameter step/return-value fetch/expectedCallsLeft probe/end of test), the first line of
-//          the message against the set of diagnoses allowed there, the return value and output bytes of every
-//          successful call, the result of expectedCallsLeft(), and the number of reports.
+//          MockFailureReporter: 4 functions with fixed signatures (0..3 typed inputs of every parameter kind, 0..2 output
+//          parameters, optional object pool, optional ignore-other-parameters, optional return type), 1..6 expectations
+//          (expectOneCall / expectNCalls(0..3) / expectNoCall), per-scope strict order, ignoreOtherCalls, a disable()/tracing()
+//          window; actual calls = the expansion of the expectation multiset, permuted, then 0..2 mutations, parameters
+//          passed in a decoded order.  Parameter values come from a per-scenario pool of three per parameter, built from
+//          lattices of boundary values (integers that agree in their low 8/16/32 bits, limits, sign boundaries, mixed
+//          integer kinds on the two sides, doubles around the tolerance, strings/buffers with common prefixes, pointers that
+//          differ in high bits, custom types with comparator/copier).
+// Oracle:  independent multiset model (DESIGN.md appendix A.1), values compared mathematically.
 // Plugin mode (first byte with bits 5 and 6 set, 1 case in 4): 2..4 such scenarios as consecutive tests of one private
 //          TestRegistry/TestResult under the repository's MockSupportPlugin; per test: failure count, first line, mock() clear.
 #include "common.h"
@@ -16,19 +16,33 @@
 #include "CppUTestExt/MockSupportPlugin.h"
 #include "CppUTestExt/MockFailure.h"
 #include <algorithm>
+#include <limits.h>
+#include <math.h>
 
 using verif::Reader;
 using verif::sfmt;
 
 namespace {
 
+typedef __int128 i128;
+
 // ---------------------------------------------------------------------------------------------- domain
-enum PType { T_INT, T_STR, T_ULONG, T_DOUBLE, T_PTR, T_BOOL, NTYPES };
-const char* const kTypeName[NTYPES] = {"int", "str", "ulong", "double", "ptr", "bool"};
-const int kInt[3] = {1, 2, -3};
-const char* const kStr[3] = {"x", "y", ""};
-const unsigned long kUlong[3] = {1UL, 2UL, 4000000000UL};
-const double kDouble[3] = {0.5, 1.5, -2.0};
+enum PType { T_BOOL, T_INT, T_UINT, T_LONG, T_ULONG, T_LLONG, T_ULLONG, T_DOUBLE, T_STR, T_PTR, T_CPTR, T_FPTR, T_MEM, T_OBJ, NTYPES };
+const char* const kTypeName[NTYPES] = {"bool", "int", "uint", "long", "ulong", "llong", "ullong", "double", "str", "ptr", "cptr", "fptr", "mem", "VType"};
+bool is_int(PType t) { return t >= T_INT && t <= T_ULLONG; }
+
+struct VObj { int content; };     // custom input type "VType", compared by content
+struct VOut { int content; };     // custom output type "VOut", copied by a copier
+VObj g_vin[9] = {{10}, {20}, {30}, {10}, {20}, {30}, {11}, {21}, {31}};   // [k+3]: other object, same content; [k+6]: near miss
+struct VComparator : MockNamedValueComparator {
+    bool isEqual(const void* a, const void* b) CPPUTEST_OVERRIDE { return ((const VObj*)a)->content == ((const VObj*)b)->content; }
+    SimpleString valueToString(const void* o) CPPUTEST_OVERRIDE { return StringFrom(((const VObj*)o)->content); }
+};
+struct VCopier : MockNamedValueCopier {
+    void copy(void* out, const void* in) CPPUTEST_OVERRIDE { *(VOut*)out = *(const VOut*)in; }
+};
+VComparator g_cmp; VCopier g_cpy;
+
 char g_slots[16];
 char g_objs[3];                      // [0],[1]: object pool; [2]: an object no expectation names
 const char* const kRetStr[6] = {"r0", "r1", "r2", "r3", "r4", "r5"};
@@ -37,22 +51,108 @@ const char* const kFunc[4] = {"f0", "f1", "f2", "f3"};
 const char* const kIn[3] = {"p0", "p1", "p2"};
 const char* const kOut[2] = {"o0", "o1"};
 
-void* ptr_value(int i) { return i == 2 ? (void*)0 : (void*)&g_slots[i]; }
-int canon(PType t, int v) { return t == T_BOOL ? (v & 1) : v; }     // bool has two values only
+struct Val {
+    PType type = T_INT; i128 i = 0; double d = 0, tol = 0; int tolKind = 0; std::string s; uintptr_t p = 0; int obj = 0;
+};
 
-enum RetType { R_NONE, R_INT, R_STR, R_ULONG, R_PTR, R_DOUBLE, NRET };
+bool fits(PType t, i128 v) {
+    switch (t) {
+    case T_INT: return v >= INT_MIN && v <= INT_MAX;
+    case T_UINT: return v >= 0 && v <= (i128)UINT_MAX;
+    case T_LONG: case T_LLONG: return v >= (i128)LLONG_MIN && v <= (i128)LLONG_MAX;
+    case T_ULONG: case T_ULLONG: return v >= 0 && v <= (i128)ULLONG_MAX;
+    default: return false;
+    }
+}
+// the reference comparison: expectation value e against actual value a, by mathematical value
+bool value_equal(const Val& e, const Val& a) {
+    if (is_int(e.type) && is_int(a.type)) return e.i == a.i;
+    if (e.type != a.type) return false;
+    switch (e.type) {
+    case T_BOOL: return (e.i != 0) == (a.i != 0);
+    case T_DOUBLE: return e.d == a.d || fabs(e.d - a.d) <= e.tol;
+    case T_STR: case T_MEM: return e.s == a.s;
+    case T_PTR: case T_CPTR: case T_FPTR: return e.p == a.p;
+    case T_OBJ: return g_vin[e.obj].content == g_vin[a.obj].content;
+    default: return false;
+    }
+}
+std::string i128_text(i128 v) {
+    if (v == 0) return "0";
+    bool neg = v < 0; unsigned __int128 u = neg ? (unsigned __int128)(-(v + 1)) + 1 : (unsigned __int128)v;
+    std::string s; while (u) { s.insert(s.begin(), (char)('0' + (int)(u % 10))); u /= 10; }
+    return neg ? "-" + s : s;
+}
+std::string val_text(const Val& v) {
+    if (is_int(v.type)) return i128_text(v.i) + ":" + kTypeName[v.type];
+    switch (v.type) {
+    case T_BOOL: return v.i ? "true" : "false";
+    case T_DOUBLE: return sfmt("%.17g%s", v.d, v.tolKind ? sfmt("~%g", v.tol).c_str() : "");
+    case T_STR: return "\"" + verif::printable(v.s) + "\"";
+    case T_MEM: return "mem[" + verif::printable(v.s) + "]";
+    case T_PTR: return sfmt("ptr:%#lx", (unsigned long)v.p);
+    case T_CPTR: return sfmt("cptr:%#lx", (unsigned long)v.p);
+    case T_FPTR: return sfmt("fptr:%#lx", (unsigned long)v.p);
+    default: return sfmt("VType{%d}#%d", g_vin[v.obj].content, v.obj);
+    }
+}
+// canonical text of an expectation value: equal values (in the model's sense) have equal keys
+std::string val_key(const Val& v) {
+    if (is_int(v.type)) return i128_text(v.i);
+    if (v.type == T_OBJ) return sfmt("V%d", g_vin[v.obj].content);
+    if (v.type == T_BOOL) return v.i ? "T" : "F";
+    return val_text(v);
+}
 
-struct FuncSpec { int nin; PType in[3]; int nout; size_t osz[2]; bool ignoreOther, objects; int ret; };
+// ---- lattices
+const i128 LI[] = {0, 1, 2, -1, 0x10, 0x110, 0x10010, 0x100000010LL, 0x7f, 0x80, 0xff, 0x100, 0x7fff, 0x8000, 0xffff, 0x10000,
+                   INT_MAX, (i128)INT_MAX + 1, UINT_MAX, (i128)UINT_MAX + 1, INT_MIN, (i128)INT_MIN - 1, LLONG_MAX, LLONG_MIN,
+                   (i128)ULLONG_MAX, (i128)LLONG_MAX + 1, -0x100000010LL, 0x1234567800000010LL, -2, 100, 0xfffffff0LL, -0x80};
+const size_t NLI = sizeof LI / sizeof LI[0];
+const double LD[] = {0.0, 1.5, -2.0, 3.5, 100.25, 1e6, -1e6, 7.0};
+const char* const LS[] = {"", "a", "ab", "abc", "b", "a\xff", "a\x80", "a b", "abcdefghijklmnopqrstuvwxyz0123456789", "A"};
+const char* const LM[] = {"", "\x01", "\x01\x02", "\x01\x02\x03", "\x7f", "\xff\xfe", "\x01\x02\x04", "\x01\x03"};
+const uintptr_t LP[] = {0, 0x10, 0x100000010UL, 0x7f0000000010UL, (uintptr_t)&g_slots[0], (uintptr_t)&g_slots[1], 0xffffffff00000010UL, 0x11};
+const double kTol[4] = {0.005, 0.5, 0.0, 1e-9};    // kind 0: the default tolerance of withDoubleParameter(name, value)
+
+i128 pick_int(unsigned b, PType te, PType ta) {
+    for (size_t k = 0; k < NLI; k++) { i128 v = LI[(b + NLI - k) % NLI]; if (fits(te, v) && fits(ta, v)) return v; }
+    return 0;
+}
+i128 derive_int(i128 v, i128 delta, unsigned b, PType te, PType ta) {
+    i128 w = v + delta;
+    return (fits(te, w) && fits(ta, w)) ? w : pick_int(b, te, ta);
+}
+// an actual-side value close to v but different: same low 8/16/32 bits, neighbours, sign flip
+i128 near_int(i128 v, PType ta, unsigned sel) {
+    const i128 cand[] = {v + ((i128)1 << 32), v - ((i128)1 << 32), v + 0x10000, v - 0x10000, v + 0x100, v - 0x100, v + 1, v - 1, -v, v + ((i128)1 << 33)};
+    const size_t n = sizeof cand / sizeof cand[0];
+    for (size_t k = 0; k < n; k++) { i128 w = cand[(sel + k) % n]; if (w != v && fits(ta, w)) return w; }
+    return v + 1;
+}
+
+enum RetType { R_NONE, R_BOOL, R_INT, R_UINT, R_LONG, R_ULONG, R_LLONG, R_ULLONG, R_DOUBLE, R_STR, R_PTR, R_CPTR, R_FPTR, NRET };
+const char* const kRetName[NRET] = {"none", "bool", "int", "uint", "long", "ulong", "llong", "ullong", "double", "str", "ptr", "cptr", "fptr"};
+const char* const kRetTypeString[NRET] = {"", "bool", "int", "unsigned int", "long int", "unsigned long int", "long long int", "unsigned long long int",
+                                          "double", "const char*", "void*", "const void*", "void (*)()"};
+
+struct ParamSpec { PType te, ta; int tolKind; Val pool[3]; };
+struct FuncSpec { int nin; ParamSpec in[3]; int nout; int okind[2]; size_t osz[2]; bool ignoreOther, objects; int ret; };   // okind: 0 plain bytes, 1 custom type "VOut"
 struct ExpSpec {
     int scope, func, count, how;     // how: 0 expectOneCall, 1 expectNCalls, 2 expectNoCall
-    int val[3]; int obj; bool hasRet; bool unmod[2]; std::vector<uint8_t> out[2];
+    int val[3]; int obj; bool hasRet; bool unmod[2]; std::vector<uint8_t> out[2]; VOut outv[2];
+    bool dead;                       // declared while the scope was disabled: not an expectation at all
     int consumed;                    // model state
 };
 enum StepKind { S_IN, S_OUT, S_OBJ };
-struct Step { int kind; std::string name; PType type; int val; int obj; };
+struct Step { int kind; std::string name; Val v; int idx; int variant; int obj; int okind; };   // variant: 0 same, 1 near miss, 2/3 equal but represented differently
 struct CallSpec {
     int scope, func; bool unknown; std::vector<Step> steps; int fetch; bool probe; int origin; std::string mut;
 };
+Step in_step(const std::string& name, const Val& v, int idx) { Step s; s.kind = S_IN; s.name = name; s.v = v; s.idx = idx; s.variant = 0; s.obj = 0; s.okind = 0; return s; }
+Step out_step(const std::string& name, int okind) { Step s; s.kind = S_OUT; s.name = name; s.idx = 0; s.variant = 0; s.obj = 0; s.okind = okind; return s; }
+Step obj_step(int obj) { Step s; s.kind = S_OBJ; s.idx = 0; s.variant = 0; s.obj = obj; s.okind = 0; return s; }
+Val int_val(int v) { Val x; x.type = T_INT; x.i = v; return x; }
 
 std::string scoped(int scope, const std::string& fn) { return scope == 0 ? fn : std::string(kScope[scope]) + "::" + fn; }
 std::string fname(const CallSpec& c) { return c.unknown ? std::string("nofn") : std::string(kFunc[c.func]); }
@@ -62,16 +162,6 @@ std::string ordinal(unsigned n) {
     unsigned m100 = n % 100, m10 = n % 10;
     if (m100 < 11 || m100 > 13) { if (m10 == 1) suf = "st"; else if (m10 == 2) suf = "nd"; else if (m10 == 3) suf = "rd"; }
     return sfmt("%u%s", n, suf);
-}
-std::string value_text(PType t, int v) {
-    switch (t) {
-    case T_INT: return sfmt("%d", kInt[v]);
-    case T_STR: return sfmt("\"%s\"", kStr[v]);
-    case T_ULONG: return sfmt("%luUL", kUlong[v]);
-    case T_DOUBLE: return sfmt("%g", kDouble[v]);
-    case T_PTR: return v == 2 ? "NULL" : sfmt("&slot%d", v);
-    default: return (v & 1) ? "true" : "false";
-    }
 }
 
 // ---------------------------------------------------------------------------------------------- reporter
@@ -89,6 +179,7 @@ Allow a_unexpected(const std::string& fn) { return {"unexpected-call", "Mock Fai
 Allow a_additional(const std::string& fn, unsigned nth) { return {"additional-call", "Mock Failure: Unexpected additional (" + ordinal(nth) + ") call to function: " + fn, true}; }
 Allow a_name_in(const std::string& fn, const std::string& p) { return {"unexpected-parameter-name", "Mock Failure: Unexpected parameter name to function \"" + fn + "\": " + p, true}; }
 Allow a_name_out(const std::string& fn, const std::string& p) { return {"unexpected-output-parameter-name", "Mock Failure: Unexpected output parameter name to function \"" + fn + "\": " + p, true}; }
+Allow a_type_out(const std::string& fn, const std::string& p, int okind) { return {"unexpected-output-parameter-type", std::string("Mock Failure: Unexpected parameter type \"") + (okind ? "VOut" : "void*") + "\" to output parameter \"" + p + "\" to function \"" + fn + "\"", true}; }
 Allow a_value(const std::string& fn, const std::string& p) { return {"unexpected-parameter-value", "Mock Failure: Unexpected parameter value to parameter \"" + p + "\" to function \"" + fn + "\": <", false}; }
 Allow a_object(const std::string& fn) { return {"unexpected-object", "MockFailure: Function called on an unexpected object: " + fn, true}; }
 Allow a_missing_param(const std::string& fn) { return {"missing-parameter", "Mock Failure: Expected parameter for function \"" + fn + "\" did not happen.", true}; }
@@ -114,70 +205,74 @@ struct Model {
     const FuncSpec* fs; std::vector<ExpSpec>* ex; int iocMode; int strictMask;
     bool pendingSet[3] = {false, false, false}; AllowSet pending[3];   // unmatched call of a scope, not finalised yet
     std::vector<std::string> seq[3];                                      // classes of the numbered calls of a scope
+    bool disabled[3] = {false, false, false}, tracing[3] = {false, false, false};
     // state of the call in progress
-    std::vector<int> cons; bool ignored = false; int matched = -1;
-    // bookkeeping for the known finding C08:stale-parameter-match-state only (never used for a verdict): expectations that
-    // agreed with an earlier call for some listed parameter (or its object) and were ruled out later in that same call
+    std::vector<int> cons; bool ignored = false; bool traced = false; int matched = -1;
+    // bookkeeping for the (fixed) finding C08:stale-parameter-match-state only, never used for a verdict
     std::vector<char> stale, flagged;
     bool stale_candidate() const { for (int i : cons) if (stale[(size_t)i]) return true; return false; }
 
     bool ioc(int s) const { return iocMode == 1 || (iocMode == 2 && s == 1) || (iocMode == 3 && s == 2); }
+    const Val& exp_val(const ExpSpec& e, int i) const { return fs[e.func].in[i].pool[e.val[i]]; }
     std::string class_key(const ExpSpec& e) const {
         const FuncSpec& f = fs[e.func];
         std::string k = kFunc[e.func];
         if (f.objects) k += sfmt("@%d", e.obj);
-        for (int i = 0; i < f.nin; i++) k += sfmt(",%d", canon(f.in[i], e.val[i]));
+        for (int i = 0; i < f.nin; i++) k += "," + val_key(exp_val(e, i));
         return k;
     }
     int in_index(const FuncSpec& f, const std::string& n) const { for (int i = 0; i < f.nin; i++) if (n == kIn[i]) return i; return -1; }
     int out_index(const FuncSpec& f, const std::string& n) const { for (int i = 0; i < f.nout; i++) if (n == kOut[i]) return i; return -1; }
+    bool seen(const CallSpec& c, int kind, const char* name) const { for (auto& s : c.steps) if (s.kind == kind && (kind == S_OBJ || s.name == name)) return true; return false; }
 
-    // everything the signature asks for was passed (ignore-other functions: possibly more)
-    bool complete(const CallSpec& c) const {
-        const FuncSpec& f = fs[c.func];
-        for (int i = 0; i < f.nin; i++) { bool seen = false; for (auto& s : c.steps) if (s.kind == S_IN && s.name == kIn[i]) seen = true; if (!seen) return false; }
-        for (int i = 0; i < f.nout; i++) { bool seen = false; for (auto& s : c.steps) if (s.kind == S_OUT && s.name == kOut[i]) seen = true; if (!seen) return false; }
-        if (f.objects) { bool seen = false; for (auto& s : c.steps) if (s.kind == S_OBJ) seen = true; if (!seen) return false; }
-        return true;
-    }
     bool missing_params(const CallSpec& c) const {
         const FuncSpec& f = fs[c.func];
-        for (int i = 0; i < f.nin; i++) { bool seen = false; for (auto& s : c.steps) if (s.kind == S_IN && s.name == kIn[i]) seen = true; if (!seen) return true; }
-        for (int i = 0; i < f.nout; i++) { bool seen = false; for (auto& s : c.steps) if (s.kind == S_OUT && s.name == kOut[i]) seen = true; if (!seen) return true; }
+        for (int i = 0; i < f.nin; i++) if (!seen(c, S_IN, kIn[i])) return true;
+        for (int i = 0; i < f.nout; i++) if (!seen(c, S_OUT, kOut[i])) return true;
         return false;
     }
+    // everything the signature asks for was passed (ignore-other functions: possibly more)
+    bool complete(const CallSpec& c) const { return !missing_params(c) && (!fs[c.func].objects || seen(c, S_OBJ, "")); }
     bool agrees(const ExpSpec& e, const Step& s) const {
         const FuncSpec& f = fs[e.func];
-        if (s.kind == S_IN) { int i = in_index(f, s.name); if (i < 0) return f.ignoreOther; return s.type == f.in[i] && canon(f.in[i], s.val) == canon(f.in[i], e.val[i]); }
-        if (s.kind == S_OUT) { int i = out_index(f, s.name); if (i < 0) return f.ignoreOther; return true; }
+        if (s.kind == S_IN) { int i = in_index(f, s.name); if (i < 0) return f.ignoreOther; return value_equal(exp_val(e, i), s.v); }
+        if (s.kind == S_OUT) { int i = out_index(f, s.name); if (i < 0) return f.ignoreOther; return f.okind[i] == s.okind; }
         return !f.objects || s.obj == e.obj;
     }
+    bool live(const ExpSpec& e, int scope, int func) const { return !e.dead && e.scope == scope && e.func == func; }
     // the call is exactly a call of a class whose expectations were all used up already (a surplus call)
     bool surplus(const CallSpec& c) const {
         if (c.unknown || !complete(c)) return false;
         for (auto& e : *ex) {
-            if (e.scope != c.scope || e.func != c.func || e.count == 0 || e.consumed < e.count) continue;
+            if (!live(e, c.scope, c.func) || e.count == 0 || e.consumed < e.count) continue;
             bool all = true;
             for (auto& s : c.steps) if (!agrees(e, s)) all = false;
             if (all) return true;
         }
         return false;
     }
-    unsigned fulfilled_for(int scope, int func) const { unsigned n = 0; for (auto& e : *ex) if (e.scope == scope && e.func == func) n += (unsigned)e.consumed; return n; }
+    unsigned fulfilled_for(int scope, int func) const { unsigned n = 0; for (auto& e : *ex) if (live(e, scope, func)) n += (unsigned)e.consumed; return n; }
+
+    // disable()/enable()/tracing(): target 0 = the root (propagates to every scope), 1/2 = that scope only
+    void window(int kind, int target, bool on) {
+        for (int s = 0; s < 3; s++) if (target == 0 || target == s) { if (kind == 1) disabled[s] = on; else tracing[s] = on; }
+    }
 
     // -- begin of an actual call.  Returns true when a report is due at this position (set filled in).
     bool begin(const CallSpec& c, AllowSet& due, bool& tolerateMore) {
-        ignored = false; matched = -1; cons.clear(); tolerateMore = false;
+        ignored = false; traced = false; matched = -1; cons.clear(); tolerateMore = false;
         stale.resize(ex->size(), 0); flagged.assign(ex->size(), 0);
         if (pendingSet[c.scope]) { due = pending[c.scope]; tolerateMore = true; return true; }   // finalisation of the previous call of this scope
+        if (disabled[c.scope]) { ignored = true; return false; }
+        if (tracing[c.scope]) { ignored = true; traced = true; return false; }
         std::string fn = scoped(c.scope, fname(c));
         bool named = false;
-        if (!c.unknown) for (auto& e : *ex) if (e.scope == c.scope && e.func == c.func) named = true;
+        if (!c.unknown) for (auto& e : *ex) if (live(e, c.scope, c.func)) named = true;
         if (!named) {
             if (ioc(c.scope)) { ignored = true; return false; }
             due.push_back(a_unexpected(fn)); return true;
         }
-        for (size_t i = 0; i < ex->size(); i++) { auto& e = (*ex)[i]; if (e.scope == c.scope && e.func == c.func && e.consumed < e.count) cons.push_back((int)i); }
+        for (size_t i = 0; i < ex->size(); i++) { auto& e = (*ex)[i]; if (live(e, c.scope, c.func) && e.consumed < e.count) cons.push_back((int)i); }
         if (cons.empty()) {
             unsigned done = fulfilled_for(c.scope, c.func);
             due.push_back(done > 0 ? a_additional(fn, done + 1) : a_unexpected(fn));
@@ -199,7 +294,7 @@ struct Model {
         }
         std::string fn = scoped(c.scope, fname(c));
         if (s.kind == S_IN) due.push_back(in_index(f, s.name) < 0 ? a_name_in(fn, s.name) : a_value(fn, s.name));
-        else if (s.kind == S_OUT) due.push_back(a_name_out(fn, s.name));
+        else if (s.kind == S_OUT) due.push_back(out_index(f, s.name) < 0 ? a_name_out(fn, s.name) : a_type_out(fn, s.name, s.okind));
         else due.push_back(a_object(fn));
         // A.1 rule 2 / A.5: a surplus call while another class of the function is open may also be called "additional call"
         if (surplus(c)) due.push_back(a_additional(fn, fulfilled_for(c.scope, c.func) + 1));
@@ -215,22 +310,20 @@ struct Model {
             for (int i : cons) stale[(size_t)i] = 0;
             return;
         }
-        const FuncSpec& f = fs[c.func];
         if (missing_params(c)) deferred.push_back(a_missing_param(fn));
-        bool objseen = false; for (auto& s : c.steps) if (s.kind == S_OBJ) objseen = true;
-        if (f.objects && !objseen) deferred.push_back(a_missing_object(fn));
+        if (fs[c.func].objects && !seen(c, S_OBJ, "")) deferred.push_back(a_missing_object(fn));
     }
     bool any_pending(AllowSet& due) const {
         bool any = false;
         for (int s = 0; s < 3; s++) if (pendingSet[s]) { any = true; due.insert(due.end(), pending[s].begin(), pending[s].end()); }
         return any;
     }
-    bool calls_left() const { for (auto& e : *ex) if (e.consumed != e.count) return true; return false; }
+    bool calls_left() const { for (auto& e : *ex) if (!e.dead && e.consumed != e.count) return true; return false; }
     bool order_differs() const {
         for (int s = 0; s < 3; s++) {
             if (!(strictMask & (1 << s))) continue;
             std::vector<std::string> want;
-            for (auto& e : *ex) if (e.scope == s) for (int k = 0; k < e.count; k++) want.push_back(class_key(e));
+            for (auto& e : *ex) if (!e.dead && e.scope == s) for (int k = 0; k < e.count; k++) want.push_back(class_key(e));
             if (want != seq[s]) return true;
         }
         return false;
@@ -246,26 +339,86 @@ struct Model {
 // ---------------------------------------------------------------------------------------------- decoder
 struct Case {
     FuncSpec fs[4]; int strictMask, iocMode;
+    int installStyle = 0;                       // comparator/copier: 0 before the scopes exist, 1 after (propagation), 2 after, as a repository
+    int winKind = 0, winTarget = 0; size_t winStart = 0, winLen = 0;   // 1 disable()..enable(), 2 tracing(true)..tracing(false) around calls [winStart, winStart+winLen)
     std::vector<ExpSpec> ex; std::vector<CallSpec> calls;
     int nmut = 0; int permMode = 0; bool interleaved = false;
     std::vector<std::string> mutkinds;
 };
 
+void build_pool(ParamSpec& ps, unsigned base, unsigned pattern) {
+    for (int j = 0; j < 3; j++) { ps.pool[j] = Val(); ps.pool[j].type = ps.te; ps.pool[j].tolKind = ps.tolKind; ps.pool[j].tol = kTol[ps.tolKind]; }
+    if (is_int(ps.te)) {
+        i128 v = pick_int(base, ps.te, ps.ta), a, b;
+        switch (pattern) {
+        default:
+        case 0: a = pick_int(base + 1, ps.te, ps.ta); b = pick_int(base + 2, ps.te, ps.ta); break;
+        case 1: a = derive_int(v, (i128)1 << 32, base + 1, ps.te, ps.ta); b = derive_int(v, (i128)1 << 33, base + 2, ps.te, ps.ta); break;
+        case 2: a = derive_int(v, 0x10000, base + 1, ps.te, ps.ta); b = derive_int(v, (i128)1 << 32, base + 2, ps.te, ps.ta); break;
+        case 3: a = derive_int(v, 0x100, base + 1, ps.te, ps.ta); b = derive_int(v, 0x10000, base + 2, ps.te, ps.ta); break;
+        case 4: a = derive_int(-v, 0, base + 1, ps.te, ps.ta); b = derive_int(v, 1, base + 2, ps.te, ps.ta); break;
+        case 5: a = derive_int(v, 1, base + 1, ps.te, ps.ta); b = derive_int(v, -1, base + 2, ps.te, ps.ta); break;
+        case 6: a = pick_int(base + 7, ps.te, ps.ta); b = pick_int(base + 13, ps.te, ps.ta); break;
+        case 7: a = v; b = pick_int(base + 1, ps.te, ps.ta); break;          // the same value twice: one class
+        }
+        ps.pool[0].i = v; ps.pool[1].i = a; ps.pool[2].i = b;
+        return;
+    }
+    static const unsigned offs[8][3] = {{0, 1, 2}, {0, 3, 5}, {0, 2, 4}, {0, 1, 3}, {0, 5, 6}, {0, 1, 5}, {0, 7, 3}, {0, 0, 1}};
+    for (int j = 0; j < 3; j++) {
+        unsigned k = base + offs[pattern][j];
+        Val& v = ps.pool[j];
+        switch (ps.te) {
+        case T_BOOL: v.i = k & 1; break;
+        case T_DOUBLE: v.d = LD[k % 8]; break;
+        case T_STR: v.s = LS[k % 10]; break;
+        case T_MEM: v.s = LM[k % 8]; break;
+        case T_PTR: case T_CPTR: case T_FPTR: v.p = LP[k % 8]; break;
+        case T_OBJ: v.obj = (int)(k % 3); break;
+        default: break;
+        }
+    }
+}
+// the value an actual call passes for pool entry idx: the same value (variant 0), a near miss (1), or the same value represented differently (2, 3)
+Val actual_of(const ParamSpec& ps, int idx, int variant, unsigned sel) {
+    Val v = ps.pool[idx];
+    if (is_int(ps.te)) { v.type = ps.ta; if (variant == 1) v.i = near_int(v.i, ps.ta, sel); return v; }
+    switch (ps.te) {
+    case T_BOOL: if (variant == 1) v.i = !v.i; break;
+    case T_DOUBLE:
+        if (variant == 1) v.d = v.tol > 0 ? v.d + 1.1 * v.tol : nextafter(v.d, INFINITY);
+        else if (variant == 2) v.d = v.d + 1e-3 * v.tol;
+        else if (variant == 3) v.d = v.d + 0.9 * v.tol;
+        break;
+    case T_STR:
+        if (variant == 1) { if (sel % 3 == 0 || v.s.empty()) v.s += (sel % 3 == 2 ? "\x80" : "x"); else if (sel % 3 == 1) v.s.erase(v.s.size() - 1); else { char ch = (char)(v.s[v.s.size() - 1] ^ 0x80); v.s[v.s.size() - 1] = ch ? ch : 'x'; } }   // never an embedded NUL: it would end the C string
+        break;
+    case T_MEM:
+        if (variant == 1) { if (sel % 3 == 0 || v.s.empty()) v.s += '\x09'; else if (sel % 3 == 1) v.s.erase(v.s.size() - 1); else v.s[v.s.size() - 1] = (char)(v.s[v.s.size() - 1] + 1); }
+        break;
+    case T_PTR: case T_CPTR: case T_FPTR:
+        if (variant == 1) v.p = sel % 3 == 0 ? (v.p ^ ((uintptr_t)1 << 32)) : sel % 3 == 1 ? (v.p ^ ((uintptr_t)1 << 40)) : v.p + 1;
+        break;
+    case T_OBJ: if (variant == 1) v.obj = v.obj % 3 + 6; else if (variant >= 2) v.obj = v.obj % 3 + 3; break;
+    default: break;
+    }
+    return v;
+}
+
 CallSpec call_from(const Case& cs, int ei) {
-    const ExpSpec& e = cs.ex[ei]; const FuncSpec& f = cs.fs[e.func];
+    const ExpSpec& e = cs.ex[(size_t)ei]; const FuncSpec& f = cs.fs[e.func];
     CallSpec c; c.scope = e.scope; c.func = e.func; c.unknown = false; c.fetch = 0; c.probe = false; c.origin = ei;
-    for (int i = 0; i < f.nin; i++) c.steps.push_back({S_IN, kIn[i], f.in[i], e.val[i], 0});
-    for (int i = 0; i < f.nout; i++) c.steps.push_back({S_OUT, kOut[i], T_INT, 0, 0});
-    if (f.objects) c.steps.push_back({S_OBJ, "", T_INT, 0, e.obj});
+    for (int i = 0; i < f.nin; i++) c.steps.push_back(in_step(kIn[i], actual_of(f.in[i], e.val[i], 0, 0), e.val[i]));
+    for (int i = 0; i < f.nout; i++) c.steps.push_back(out_step(kOut[i], f.okind[i]));
+    if (f.objects) c.steps.push_back(obj_step(e.obj));
     return c;
 }
 
 void decode(Reader& r, Case& cs) {
     uint8_t flags = r.u8();
-    cs.strictMask = flags & 7; cs.iocMode = (flags >> 3) & 3;
-    uint8_t rot = r.u8();
+    cs.strictMask = flags & 7; cs.iocMode = (flags >> 3) & 3; cs.installStyle = flags >> 7;
     for (int f = 0; f < 4; f++) {
-        uint8_t b = r.u8(), b2 = r.u8();
+        uint8_t b = r.u8(), b2 = r.u8(), b3 = r.u8();
         FuncSpec& s = cs.fs[f];
         s.nin = b & 3;
         static const int nouts[4] = {0, 1, 2, 1};
@@ -273,8 +426,16 @@ void decode(Reader& r, Case& cs) {
         s.ignoreOther = ((b >> 4) & 3) == 1;
         s.objects = ((b >> 6) & 3) == 1;
         s.ret = b2 % NRET;
-        s.osz[0] = 1 + (b2 / 6) % 8; s.osz[1] = 1 + (b2 / 48) % 5;
-        for (int i = 0; i < 3; i++) s.in[i] = (PType)((rot + f + 2 * i + (rot >> 4) * i) % NTYPES);
+        s.osz[0] = 1 + (b2 / 13) % 8; s.osz[1] = 1 + (b2 / 104) % 3;
+        s.okind[0] = (b3 & 3) == 1; s.okind[1] = ((b3 >> 2) & 3) == 1;
+        for (int i = 0; i < s.nin; i++) {
+            uint8_t tb = r.u8(), pb = r.u8();
+            static const PType types[16] = {T_INT, T_STR, T_ULONG, T_DOUBLE, T_PTR, T_BOOL, T_UINT, T_LONG, T_LLONG, T_ULLONG, T_CPTR, T_FPTR, T_MEM, T_OBJ, T_ULONG, T_LONG};
+            ParamSpec& ps = s.in[i];
+            ps.te = types[tb & 15]; ps.ta = ps.te; ps.tolKind = (tb >> 6) & 3;
+            if (is_int(ps.te)) { unsigned mix = tb >> 4; if (mix >= 6) ps.ta = (PType)(T_INT + (ps.te - T_INT + 1 + (mix - 6) % 5) % 6); }   // every ordered pair of integer kinds
+            build_pool(ps, pb & 31, pb >> 5);
+        }
     }
     static const int nexps[8] = {1, 2, 3, 4, 5, 6, 3, 4};
     int nexp = nexps[r.below(8)];
@@ -283,24 +444,29 @@ void decode(Reader& r, Case& cs) {
         ExpSpec e;
         static const int scopes[4] = {0, 1, 2, 0};
         e.scope = scopes[b & 3]; e.func = (b >> 2) & 3;
-        if (i > 0 && (b3 & 0x80)) { e.scope = cs.ex[i - 1].scope; e.func = cs.ex[i - 1].func; }   // another expectation on the same function
+        if (i > 0 && (b3 & 0x80)) { e.scope = cs.ex[(size_t)i - 1].scope; e.func = cs.ex[(size_t)i - 1].func; }   // another expectation on the same function
         static const int hows[16] = {0, 1, 1, 1, 1, 2, 1, 1, 1, 0, 1, 1, 1, 1, 1, 1};      // 0 expectOneCall, 1 expectNCalls, 2 expectNoCall
         static const int counts[16] = {1, 2, 3, 1, 0, 0, 2, 3, 2, 1, 3, 2, 1, 3, 2, 0};
         e.how = hows[b >> 4]; e.count = counts[b >> 4];
         for (int k = 0; k < 3; k++) e.val[k] = ((b2 >> (2 * k)) & 3) % 3;
         e.obj = (b2 >> 6) & 1;
         e.hasRet = (b3 & 1) != 0 && cs.fs[e.func].ret != R_NONE;
-        e.unmod[0] = ((b3 >> 1) & 7) == 7; e.unmod[1] = ((b3 >> 4) & 7) == 7;
-        for (int k = 0; k < 2; k++) for (size_t j = 0; j < cs.fs[e.func].osz[k]; j++) e.out[k].push_back((uint8_t)(0x10 * (i + 1) + 8 * k + j));
-        e.consumed = 0;
+        e.unmod[0] = ((b3 >> 1) & 7) == 7 && !cs.fs[e.func].okind[0]; e.unmod[1] = ((b3 >> 4) & 7) == 7 && !cs.fs[e.func].okind[1];
+        for (int k = 0; k < 2; k++) { for (size_t j = 0; j < cs.fs[e.func].osz[k]; j++) e.out[k].push_back((uint8_t)(0x10 * (i + 1) + 8 * k + j)); e.outv[k].content = 0x1000 * (i + 1) + k; }
+        e.dead = false; e.consumed = 0;
         cs.ex.push_back(e);
     }
     // actual calls: expansion in declaration order
-    for (int i = 0; i < nexp; i++) for (int k = 0; k < cs.ex[i].count; k++) cs.calls.push_back(call_from(cs, i));
+    for (int i = 0; i < nexp; i++) for (int k = 0; k < cs.ex[(size_t)i].count; k++) cs.calls.push_back(call_from(cs, i));
     // mutations are decoded before the permutation so that short inputs still carry them; applied after it
     { static const int nm[4] = {0, 1, 2, 1}; cs.nmut = nm[r.below(4)]; }
     struct Mut { uint32_t kind; uint8_t target, aux; } muts[2];
-    for (int m = 0; m < cs.nmut; m++) { muts[m].kind = r.below(10); muts[m].target = r.u8(); muts[m].aux = r.u8(); }
+    for (int m = 0; m < cs.nmut; m++) { muts[m].kind = r.below(11); muts[m].target = r.u8(); muts[m].aux = r.u8(); }
+    // configuration windows: disable()/tracing() around some calls, one expectation declared while its scope is disabled
+    uint8_t w = r.u8(), w2 = r.u8(), w3 = r.u8();
+    { static const int kinds[8] = {0, 1, 2, 0, 0, 0, 0, 0}; cs.winKind = kinds[w & 7]; static const int targets[4] = {0, 1, 2, 0}; cs.winTarget = targets[(w >> 3) & 3]; }
+    if ((w3 & 7) == 1) cs.ex[(size_t)((w3 >> 3) % nexp)].dead = true;
+    if (w3 & 0x40) cs.installStyle = 2;
     // permutation
     { static const int pm[5] = {0, 1, 2, 1, 2}; cs.permMode = pm[r.below(5)]; }   // 0 declaration order, 1 shuffle, 2 shuffle that keeps declaration order inside strict scopes
     std::vector<CallSpec> decl = cs.calls;
@@ -316,7 +482,7 @@ void decode(Reader& r, Case& cs) {
     for (size_t i = 0; i < n; i++) if (cs.calls[i].origin != decl[i].origin) cs.interleaved = true;
     // mutations
     for (int m = 0; m < cs.nmut; m++) {
-        static const char* const kn[10] = {"drop", "duplicate", "change-value", "rename-parameter", "omit-parameter", "wrong-object", "unknown-function", "swap", "extra-parameter", "wrong-scope"};
+        static const char* const kn[11] = {"drop", "duplicate", "change-value", "rename-parameter", "omit-parameter", "wrong-object", "unknown-function", "swap", "extra-parameter", "wrong-scope", "change-output-type"};
         uint32_t kind = muts[m].kind; uint8_t aux = muts[m].aux;
         std::string label = kn[kind];
         if (cs.calls.empty()) {   // nothing to mutate: the only possible deviation is a call nobody expects
@@ -333,9 +499,13 @@ void decode(Reader& r, Case& cs) {
             if (ins.empty()) { label = "noop(change-value:no-parameter)"; break; }
             Step& s = c.steps[ins[aux % ins.size()]];
             int spec_i = -1; for (int i = 0; i < cs.fs[c.func].nin; i++) if (s.name == kIn[i]) spec_i = i;
-            if ((aux >> 6) == 3 && spec_i >= 0) {   // a type that never compares equal to the declared one (int/long/unsigned cross-type equality is C09's domain)
-                s.type = (cs.fs[c.func].in[spec_i] == T_STR) ? T_INT : T_STR; label = "change-type"; c.mut += "type;"; }
-            else { s.val = (s.val + 1 + ((aux >> 4) & 1)) % 3; c.mut += "value;"; }
+            if (spec_i < 0) { label = "noop(change-value:renamed)"; break; }
+            const ParamSpec& ps = cs.fs[c.func].in[spec_i];
+            if ((aux >> 6) == 3) {   // a type that never compares equal to the declared one
+                Val nv; if (ps.te == T_STR) { nv.type = T_INT; nv.i = 7; } else { nv.type = T_STR; nv.s = "7"; }
+                s.v = nv; s.variant = 1; label = "change-type"; c.mut += "type;"; }
+            else if ((aux >> 6) == 2) { s.v = actual_of(ps, s.idx, 1, aux & 15); s.variant = 1; label = "near-miss-value"; c.mut += "near;"; }
+            else { s.idx = (s.idx + 1 + ((aux >> 4) & 1)) % 3; s.v = actual_of(ps, s.idx, 0, 0); s.variant = 0; c.mut += "value;"; }
             break; }
         case 3: {
             std::vector<size_t> ps; for (size_t i = 0; i < c.steps.size(); i++) if (c.steps[i].kind != S_OBJ) ps.push_back(i);
@@ -357,32 +527,43 @@ void decode(Reader& r, Case& cs) {
                 else if ((aux & 3) == 1) { s.obj = -1; label = "omit-object"; }  // no object at all
                 else s.obj ^= 1; }                                               // the other pool object
             if (had) { c.steps.erase(std::remove_if(c.steps.begin(), c.steps.end(), [](const Step& s) { return s.kind == S_OBJ && s.obj < 0; }), c.steps.end()); c.mut += "object;"; }
-            else { c.steps.push_back({S_OBJ, "", T_INT, 0, 2}); label = "object-on-objectless-function"; c.mut += "object;"; }
+            else { c.steps.push_back(obj_step(2)); label = "object-on-objectless-function"; c.mut += "object;"; }
             break; }
         case 6: c.unknown = true; c.mut += "unknown;"; break;
         case 7: { size_t u = aux % cs.calls.size(); if (u == t) label = "noop(swap:same)"; std::swap(cs.calls[t], cs.calls[u]); break; }
-        case 8: { size_t at = aux % (c.steps.size() + 1); c.steps.insert(c.steps.begin() + (long)at, Step{S_IN, "xx", T_INT, 0, 0}); c.mut += "extra;"; break; }
+        case 8: { size_t at = aux % (c.steps.size() + 1); c.steps.insert(c.steps.begin() + (long)at, in_step("xx", int_val(7), 0)); c.mut += "extra;"; break; }
         case 9: c.scope = (c.scope + 1 + (aux & 1)) % 3; c.mut += "scope;"; break;
+        case 10: {
+            std::vector<size_t> os; for (size_t i = 0; i < c.steps.size(); i++) if (c.steps[i].kind == S_OUT) os.push_back(i);
+            if (os.empty()) { label = "noop(change-output-type:no-output)"; break; }
+            Step& s = c.steps[os[aux % os.size()]]; s.okind ^= 1; c.mut += "outtype;";
+            break; }
         }
         cs.mutkinds.push_back(label);
     }
+    cs.winStart = cs.calls.empty() ? 0 : (w2 & 15) % cs.calls.size(); cs.winLen = 1 + (w2 >> 4) % 4;
     // per call: order of the parameters, ignored extras, how the return value is fetched, expectedCallsLeft probe
     for (auto& c : cs.calls) {
-        uint8_t ord = r.u8(), d = r.u8();
-        static const int fetches[4] = {0, 1, 2, 0};
-        c.fetch = fetches[d & 3];
+        uint8_t ord = r.u8(), d = r.u8(), e = r.u8();
+        static const int fetches[8] = {0, 1, 2, 3, 4, 5, 6, 0};   // 0/1 returnValue() of call/scope, 2 none, 3/4 typed getter, 5/6 typed ...OrDefault
+        c.fetch = fetches[e & 7];
         c.probe = ((d >> 6) & 3) == 1;
         const FuncSpec& f = cs.fs[c.func];
+        int eqv = (e >> 3) & 3;                                  // 2, 3: pass every unmutated value in its other representation
+        if (!c.unknown && eqv >= 2) for (auto& s : c.steps) if (s.kind == S_IN && s.variant == 0) {
+            for (int i = 0; i < f.nin; i++) if (s.name == kIn[i]) { s.v = actual_of(f.in[i], s.idx, eqv, 0); s.variant = eqv; }
+        }
         if (!c.unknown && f.ignoreOther) {
             static const int extras[4] = {0, 1, 2, 1};
             int ne = extras[(d >> 2) & 3];
-            if (ne >= 1) c.steps.push_back({S_IN, "x0", T_INT, 1, 0});
-            if (ne >= 2) c.steps.push_back({S_OUT, "x1", T_INT, 0, 0});
+            if (ne >= 1) c.steps.push_back(in_step("x0", int_val(2), 0));
+            if (ne >= 2) c.steps.push_back(out_step("x1", (d & 1)));
         }
         if (!c.unknown && !f.objects && ((d >> 4) & 3) == 1) {
             bool has = false; for (auto& s : c.steps) if (s.kind == S_OBJ) has = true;
-            if (!has) c.steps.push_back({S_OBJ, "", T_INT, 0, 0});   // object passed to a function whose expectations name none: ignored
+            if (!has) c.steps.push_back(obj_step(0));   // object passed to a function whose expectations name none: ignored
         }
+        if (c.steps.size() > 16) c.steps.resize(16);
         size_t k = c.steps.size();
         if (k > 1) {
             std::rotate(c.steps.begin(), c.steps.begin() + (long)(ord % k), c.steps.end());
@@ -393,18 +574,20 @@ void decode(Reader& r, Case& cs) {
 }
 
 std::string render(const Case& cs) {
-    std::string s = sfmt("strict=%d%d%d ioc=%d;", cs.strictMask & 1, (cs.strictMask >> 1) & 1, (cs.strictMask >> 2) & 1, cs.iocMode);
+    std::string s = sfmt("strict=%d%d%d ioc=%d install=%d", cs.strictMask & 1, (cs.strictMask >> 1) & 1, (cs.strictMask >> 2) & 1, cs.iocMode, cs.installStyle);
+    if (cs.winKind) s += sfmt(" %s(%s) around calls [%zu,%zu)", cs.winKind == 1 ? "disable" : "tracing", cs.winTarget == 0 ? "root" : kScope[cs.winTarget], cs.winStart, cs.winStart + cs.winLen);
+    s += ";";
     for (auto& e : cs.ex) {
         const FuncSpec& f = cs.fs[e.func];
-        s += sfmt(" E:%s x%d%s", scoped(e.scope, kFunc[e.func]).c_str(), e.count, e.how == 2 ? "(noCall)" : "");
+        s += sfmt(" E:%s x%d%s%s", scoped(e.scope, kFunc[e.func]).c_str(), e.count, e.how == 2 ? "(noCall)" : "", e.dead ? "[declared-while-disabled]" : "");
         if (e.how != 2) {
             s += "(";
-            for (int i = 0; i < f.nin; i++) s += sfmt("%s%s=%s", i ? "," : "", kIn[i], value_text(f.in[i], e.val[i]).c_str());
-            for (int i = 0; i < f.nout; i++) s += sfmt(",%s:out%zu%s", kOut[i], f.osz[i], e.unmod[i] ? "u" : "");
+            for (int i = 0; i < f.nin; i++) s += sfmt("%s%s=%s", i ? "," : "", kIn[i], val_text(f.in[i].pool[e.val[i]]).c_str());
+            for (int i = 0; i < f.nout; i++) s += f.okind[i] ? sfmt(",%s:VOut", kOut[i]) : sfmt(",%s:out%zu%s", kOut[i], f.osz[i], e.unmod[i] ? "u" : "");
             s += ")";
             if (f.objects) s += sfmt("@obj%d", e.obj);
             if (f.ignoreOther) s += "+ignoreOther";
-            if (e.hasRet) s += sfmt("->%s", f.ret == R_INT ? "int" : f.ret == R_STR ? "str" : f.ret == R_ULONG ? "ulong" : f.ret == R_PTR ? "ptr" : "double");
+            if (e.hasRet) s += sfmt("->%s", kRetName[f.ret]);
         }
         s += ";";
     }
@@ -414,17 +597,17 @@ std::string render(const Case& cs) {
         bool first = true;
         for (auto& st : c.steps) {
             if (!first) s += ","; first = false;
-            if (st.kind == S_IN) s += sfmt("%s=%s", st.name.c_str(), value_text(st.type, st.val).c_str());
-            else if (st.kind == S_OUT) s += sfmt("%s:out", st.name.c_str());
+            if (st.kind == S_IN) s += sfmt("%s=%s%s", st.name.c_str(), val_text(st.v).c_str(), st.variant == 1 ? "!" : st.variant >= 2 ? "~" : "");
+            else if (st.kind == S_OUT) s += sfmt("%s:%s", st.name.c_str(), st.okind ? "VOut" : "out");
             else s += sfmt("@obj%d", st.obj);
         }
-        s += sfmt(")%s%s", c.fetch == 0 ? ".ret" : c.fetch == 1 ? ".scoperet" : "", c.probe ? "?left" : "");
+        s += sfmt(")f%d%s", c.fetch, c.probe ? "?left" : "");
         if (!c.mut.empty()) s += "[" + c.mut + "]";
     }
     return s;
 }
 
-// ---------------------------------------------------------------------------------------------- execution
+// ---------------------------------------------------------------------------------------------- execution helpers
 struct Position { int call; const char* phase; int step; };
 std::string pos_text(const Position& p) {
     if (p.call < 0) return "end of test (checkExpectations)";
@@ -454,115 +637,269 @@ int judge(const Position& pos, bool due, const AllowSet& set, bool tolerateMore,
     return 2;
 }
 
-int check_return(MockNamedValue v, bool has, const ExpSpec* e, const FuncSpec* f, int ei, const std::string& where, const std::string& scenario) {
-    bool want = e && e->hasRet;
-    if (has != want) return verif::fail("C08:return-value", "%s: hasReturnValue() is %d, the consumed expectation %s a return value [%s]", where.c_str(), has, want ? "has" : "does not have", scenario.c_str());
-    if (!want) return 0;
-    std::string type = v.getType().asCharString();
-    bool ok = false; std::string gottext = type;
-    switch (f->ret) {
-    case R_INT: if (type == "int") { int g = v.getIntValue(); ok = g == 100 + ei; gottext += sfmt(" %d", g); } break;
-    case R_STR: if (type == "const char*") { const char* g = v.getStringValue(); ok = g && std::string(g) == kRetStr[ei]; gottext += sfmt(" %s", g ? g : "(null)"); } break;
-    case R_ULONG: if (type == "unsigned long int") { unsigned long g = v.getUnsignedLongIntValue(); ok = g == 1000UL + (unsigned long)ei; gottext += sfmt(" %lu", g); } break;
-    case R_PTR: if (type == "void*") { void* g = v.getPointerValue(); ok = g == (void*)&g_slots[4 + ei]; gottext += sfmt(" slot%+ld", (long)((char*)g - g_slots)); } break;
-    case R_DOUBLE: if (type == "double") { double g = v.getDoubleValue(); ok = g == ei + 0.25; gottext += sfmt(" %g", g); } break;
+void expect_param(MockExpectedCall& x, const char* name, const Val& v) {
+    switch (v.type) {
+    case T_BOOL: x.withBoolParameter(name, v.i != 0); break;
+    case T_INT: x.withIntParameter(name, (int)v.i); break;
+    case T_UINT: x.withUnsignedIntParameter(name, (unsigned int)v.i); break;
+    case T_LONG: x.withLongIntParameter(name, (long)v.i); break;
+    case T_ULONG: x.withUnsignedLongIntParameter(name, (unsigned long)v.i); break;
+    case T_LLONG: x.withLongLongIntParameter(name, (long long)v.i); break;
+    case T_ULLONG: x.withUnsignedLongLongIntParameter(name, (unsigned long long)v.i); break;
+    case T_DOUBLE: if (v.tolKind == 0) x.withDoubleParameter(name, v.d); else x.withDoubleParameter(name, v.d, v.tol); break;
+    case T_STR: x.withStringParameter(name, v.s.c_str()); break;
+    case T_PTR: x.withPointerParameter(name, (void*)v.p); break;
+    case T_CPTR: x.withConstPointerParameter(name, (const void*)v.p); break;
+    case T_FPTR: x.withFunctionPointerParameter(name, (void (*)())v.p); break;
+    case T_MEM: x.withMemoryBufferParameter(name, (const unsigned char*)v.s.data(), v.s.size()); break;
+    default: x.withParameterOfType("VType", name, &g_vin[v.obj]); break;
     }
-    if (!ok) return verif::fail("C08:return-value", "%s: returned <%s>, but the call consumed expectation #%d (declaration order) whose return value is of kind %d index %d [%s]",
-                                where.c_str(), gottext.c_str(), ei, f->ret, ei, scenario.c_str());
-    return 0;
+}
+
+struct RV { i128 i = 0; double d = 0; std::string s; uintptr_t p = 0; };
+RV expected_ret(int ret, int i) {
+    RV r;
+    switch (ret) {
+    case R_BOOL: r.i = i & 1; break;
+    case R_INT: r.i = 100 + i; break;
+    case R_UINT: r.i = (i128)4000000000u + i; break;
+    case R_LONG: r.i = 0x10 - ((i128)(i + 1) << 32); break;
+    case R_ULONG: r.i = 0x10 + ((i128)i << 32); break;                  // values that agree in their low 32 bits
+    case R_LLONG: r.i = (i128)LLONG_MIN + i; break;
+    case R_ULLONG: r.i = (i128)ULLONG_MAX - i; break;
+    case R_DOUBLE: r.d = i + 0.25; break;
+    case R_STR: r.s = kRetStr[i]; break;
+    case R_PTR: r.p = 0x10 + ((uintptr_t)i << 32); break;
+    case R_CPTR: r.p = 0x20 + ((uintptr_t)i << 40); break;
+    case R_FPTR: r.p = 0x1000 + (uintptr_t)i * 16; break;
+    }
+    return r;
+}
+RV default_ret(int ret, bool otherThanBool) {
+    RV r; r.i = ret == R_BOOL ? (otherThanBool ? 1 : 0) : 77; r.d = 77.5; r.s = "dflt"; r.p = 0x77;
+    return r;
+}
+bool rv_equal(int ret, const RV& a, const RV& b) {
+    switch (ret) {
+    case R_DOUBLE: return a.d == b.d;
+    case R_STR: return a.s == b.s;
+    case R_PTR: case R_CPTR: case R_FPTR: return a.p == b.p;
+    default: return a.i == b.i;
+    }
+}
+std::string rv_text(int ret, const RV& a) {
+    switch (ret) {
+    case R_DOUBLE: return sfmt("%g", a.d);
+    case R_STR: return "\"" + a.s + "\"";
+    case R_PTR: case R_CPTR: case R_FPTR: return sfmt("%#lx", (unsigned long)a.p);
+    default: return i128_text(a.i);
+    }
+}
+void expect_return(MockExpectedCall& x, int ret, int i) {
+    RV r = expected_ret(ret, i);
+    switch (ret) {
+    case R_BOOL: x.andReturnValue(r.i != 0); break;
+    case R_INT: x.andReturnValue((int)r.i); break;
+    case R_UINT: x.andReturnValue((unsigned int)r.i); break;
+    case R_LONG: x.andReturnValue((long)r.i); break;
+    case R_ULONG: x.andReturnValue((unsigned long)r.i); break;
+    case R_LLONG: x.andReturnValue((long long)r.i); break;
+    case R_ULLONG: x.andReturnValue((unsigned long long)r.i); break;
+    case R_DOUBLE: x.andReturnValue(r.d); break;
+    case R_STR: x.andReturnValue(kRetStr[i]); break;
+    case R_PTR: x.andReturnValue((void*)r.p); break;
+    case R_CPTR: x.andReturnValue((const void*)r.p); break;
+    case R_FPTR: x.andReturnValue((void (*)())r.p); break;
+    }
+}
+// the value out of a MockNamedValue whose type string has been checked already
+RV from_named(const MockNamedValue& v, int ret) {
+    RV r;
+    switch (ret) {
+    case R_BOOL: r.i = v.getBoolValue(); break;
+    case R_INT: r.i = v.getIntValue(); break;
+    case R_UINT: r.i = v.getUnsignedIntValue(); break;
+    case R_LONG: r.i = v.getLongIntValue(); break;
+    case R_ULONG: r.i = v.getUnsignedLongIntValue(); break;
+    case R_LLONG: r.i = v.getLongLongIntValue(); break;
+    case R_ULLONG: r.i = v.getUnsignedLongLongIntValue(); break;
+    case R_DOUBLE: r.d = v.getDoubleValue(); break;
+    case R_STR: { const char* s = v.getStringValue(); r.s = s ? s : "(null)"; break; }
+    case R_PTR: r.p = (uintptr_t)v.getPointerValue(); break;
+    case R_CPTR: r.p = (uintptr_t)v.getConstPointerValue(); break;
+    case R_FPTR: r.p = (uintptr_t)v.getFunctionPointerValue(); break;
+    }
+    return r;
+}
+// typed getters of the call object / of the MockSupport object, plain or ...OrDefault
+RV typed_fetch(MockActualCall& ac, MockSupport* sc, bool viaScope, int ret, bool orDefault, const RV& d) {
+    RV r;
+#define PICK(CALLV, CALLD, SCV, SCD) (viaScope ? (orDefault ? (SCD) : (SCV)) : (orDefault ? (CALLD) : (CALLV)))
+    switch (ret) {
+    case R_BOOL: r.i = PICK(ac.returnBoolValue(), ac.returnBoolValueOrDefault(d.i != 0), sc->boolReturnValue(), sc->returnBoolValueOrDefault(d.i != 0)); break;
+    case R_INT: r.i = PICK(ac.returnIntValue(), ac.returnIntValueOrDefault((int)d.i), sc->intReturnValue(), sc->returnIntValueOrDefault((int)d.i)); break;
+    case R_UINT: r.i = PICK(ac.returnUnsignedIntValue(), ac.returnUnsignedIntValueOrDefault((unsigned)d.i), sc->unsignedIntReturnValue(), sc->returnUnsignedIntValueOrDefault((unsigned)d.i)); break;
+    case R_LONG: r.i = PICK(ac.returnLongIntValue(), ac.returnLongIntValueOrDefault((long)d.i), sc->longIntReturnValue(), sc->returnLongIntValueOrDefault((long)d.i)); break;
+    case R_ULONG: r.i = PICK(ac.returnUnsignedLongIntValue(), ac.returnUnsignedLongIntValueOrDefault((unsigned long)d.i), sc->unsignedLongIntReturnValue(), sc->returnUnsignedLongIntValueOrDefault((unsigned long)d.i)); break;
+    case R_LLONG: r.i = PICK(ac.returnLongLongIntValue(), ac.returnLongLongIntValueOrDefault((long long)d.i), sc->longLongIntReturnValue(), sc->returnLongLongIntValueOrDefault((long long)d.i)); break;
+    case R_ULLONG: r.i = PICK(ac.returnUnsignedLongLongIntValue(), ac.returnUnsignedLongLongIntValueOrDefault((unsigned long long)d.i), sc->unsignedLongLongIntReturnValue(), sc->returnUnsignedLongLongIntValueOrDefault((unsigned long long)d.i)); break;
+    case R_DOUBLE: r.d = PICK(ac.returnDoubleValue(), ac.returnDoubleValueOrDefault(d.d), sc->doubleReturnValue(), sc->returnDoubleValueOrDefault(d.d)); break;
+    case R_STR: { const char* s = PICK(ac.returnStringValue(), ac.returnStringValueOrDefault("dflt"), sc->stringReturnValue(), sc->returnStringValueOrDefault("dflt")); r.s = s ? s : "(null)"; break; }
+    case R_PTR: r.p = (uintptr_t)PICK(ac.returnPointerValue(), ac.returnPointerValueOrDefault((void*)d.p), sc->pointerReturnValue(), sc->returnPointerValueOrDefault((void*)d.p)); break;
+    case R_CPTR: r.p = (uintptr_t)PICK(ac.returnConstPointerValue(), ac.returnConstPointerValueOrDefault((const void*)d.p), sc->constPointerReturnValue(), sc->returnConstPointerValueOrDefault((const void*)d.p)); break;
+    case R_FPTR: r.p = (uintptr_t)PICK(ac.returnFunctionPointerValue(), ac.returnFunctionPointerValueOrDefault((void (*)())d.p), sc->functionPointerReturnValue(), sc->returnFunctionPointerValueOrDefault((void (*)())d.p)); break;
+    }
+#undef PICK
+    return r;
 }
 
 void declare_expectations(MockSupport* const sc[3], Case& cs) {
     for (size_t i = 0; i < cs.ex.size(); i++) {
         ExpSpec& e = cs.ex[i]; const FuncSpec& f = cs.fs[e.func];
+        sc[e.scope]->setDefaultComparatorsAndCopiersRepository();      // what mock(name) does on every use: custom types are looked up in this scope's repository
+        struct Reenable { MockSupport* m; ~Reenable() { if (m) m->enable(); } } reenable{e.dead ? sc[e.scope] : nullptr};
+        if (e.dead) sc[e.scope]->disable();          // everything declared now is dropped
         if (e.how == 2) { sc[e.scope]->expectNoCall(kFunc[e.func]); continue; }
         MockExpectedCall& x = e.how == 0 ? sc[e.scope]->expectOneCall(kFunc[e.func]) : sc[e.scope]->expectNCalls((unsigned)e.count, kFunc[e.func]);
-        for (int k = 0; k < f.nin; k++) {
-            switch (f.in[k]) {
-            case T_INT: x.withIntParameter(kIn[k], kInt[e.val[k]]); break;
-            case T_STR: x.withStringParameter(kIn[k], kStr[e.val[k]]); break;
-            case T_ULONG: x.withUnsignedLongIntParameter(kIn[k], kUlong[e.val[k]]); break;
-            case T_DOUBLE: x.withDoubleParameter(kIn[k], kDouble[e.val[k]]); break;
-            case T_PTR: x.withPointerParameter(kIn[k], ptr_value(e.val[k])); break;
-            default: x.withBoolParameter(kIn[k], (e.val[k] & 1) != 0); break;
-            }
+        for (int k = 0; k < f.nin; k++) expect_param(x, kIn[k], f.in[k].pool[e.val[k]]);
+        for (int k = 0; k < f.nout; k++) {
+            if (f.okind[k]) x.withOutputParameterOfTypeReturning("VOut", kOut[k], &e.outv[k]);
+            else if (e.unmod[k]) x.withUnmodifiedOutputParameter(kOut[k]);
+            else x.withOutputParameterReturning(kOut[k], e.out[k].data(), e.out[k].size());
         }
-        for (int k = 0; k < f.nout; k++) { if (e.unmod[k]) x.withUnmodifiedOutputParameter(kOut[k]); else x.withOutputParameterReturning(kOut[k], e.out[k].data(), e.out[k].size()); }
         if (f.objects) x.onObject(&g_objs[e.obj]);
         if (f.ignoreOther) x.ignoreOtherParameters();
-        if (e.hasRet) {
-            switch (f.ret) {
-            case R_INT: x.andReturnValue((int)(100 + i)); break;
-            case R_STR: x.andReturnValue(kRetStr[i]); break;
-            case R_ULONG: x.andReturnValue((unsigned long)(1000 + i)); break;
-            case R_PTR: x.andReturnValue((void*)&g_slots[4 + i]); break;
-            case R_DOUBLE: x.andReturnValue((double)i + 0.25); break;
-            }
-        }
+        if (e.hasRet) expect_return(x, f.ret, (int)i);
     }
 }
 
-void apply_step(MockActualCall& ac, const Step& s, uint8_t* obuf) {
-    if (s.kind == S_IN) {
-        switch (s.type) {
-        case T_INT: ac.withIntParameter(s.name.c_str(), s.name == "xx" ? 7 : kInt[s.val]); break;
-        case T_STR: ac.withStringParameter(s.name.c_str(), kStr[s.val]); break;
-        case T_ULONG: ac.withUnsignedLongIntParameter(s.name.c_str(), kUlong[s.val]); break;
-        case T_DOUBLE: ac.withDoubleParameter(s.name.c_str(), kDouble[s.val]); break;
-        case T_PTR: ac.withPointerParameter(s.name.c_str(), ptr_value(s.val)); break;
-        default: ac.withBoolParameter(s.name.c_str(), (s.val & 1) != 0); break;
-        }
-    } else if (s.kind == S_OUT) ac.withOutputParameter(s.name.c_str(), obuf);
-    else ac.onObject(&g_objs[s.obj]);
+struct OutBuf { uint8_t bytes[24]; VOut obj; };
+void apply_step(MockActualCall& ac, const Step& s, OutBuf& ob) {
+    const char* name = s.name.c_str();
+    if (s.kind == S_OBJ) { ac.onObject(&g_objs[s.obj]); return; }
+    if (s.kind == S_OUT) { if (s.okind) ac.withOutputParameterOfType("VOut", name, &ob.obj); else ac.withOutputParameter(name, ob.bytes); return; }
+    const Val& v = s.v;
+    switch (v.type) {
+    case T_BOOL: ac.withBoolParameter(name, v.i != 0); break;
+    case T_INT: ac.withIntParameter(name, (int)v.i); break;
+    case T_UINT: ac.withUnsignedIntParameter(name, (unsigned int)v.i); break;
+    case T_LONG: ac.withLongIntParameter(name, (long)v.i); break;
+    case T_ULONG: ac.withUnsignedLongIntParameter(name, (unsigned long)v.i); break;
+    case T_LLONG: ac.withLongLongIntParameter(name, (long long)v.i); break;
+    case T_ULLONG: ac.withUnsignedLongLongIntParameter(name, (unsigned long long)v.i); break;
+    case T_DOUBLE: ac.withDoubleParameter(name, v.d); break;
+    case T_STR: ac.withStringParameter(name, v.s.c_str()); break;
+    case T_PTR: ac.withPointerParameter(name, (void*)v.p); break;
+    case T_CPTR: ac.withConstPointerParameter(name, (const void*)v.p); break;
+    case T_FPTR: ac.withFunctionPointerParameter(name, (void (*)())v.p); break;
+    case T_MEM: ac.withMemoryBufferParameter(name, (const unsigned char*)v.s.data(), v.s.size()); break;
+    default: ac.withParameterOfType("VType", name, &g_vin[v.obj]); break;
+    }
+}
+void reset_outbufs(OutBuf* ob, size_t n) { for (size_t i = 0; i < n; i++) { memset(ob[i].bytes, 0xEE, sizeof ob[i].bytes); ob[i].obj.content = (int)0xEEEEEEEE; } }
+
+void install_types(MockSupport& root, int style) {
+    if (style == 2) { MockNamedValueComparatorsAndCopiersRepository repo; repo.installComparator("VType", g_cmp); repo.installCopier("VOut", g_cpy); root.installComparatorsAndCopiers(repo); }
+    else { root.installComparator("VType", g_cmp); root.installCopier("VOut", g_cpy); }
+}
+void apply_window(MockSupport* const sc[3], const Case& cs, bool on) {
+    MockSupport* t = sc[cs.winTarget];
+    if (cs.winKind == 1) { if (on) t->disable(); else t->enable(); }
+    else if (cs.winKind == 2) t->tracing(on);
 }
 
 // generator histogram; returns the NT verdict of DESIGN.md for one scenario
 bool note_features(const Case& cs) {
-        std::vector<std::string> classes;
-        for (auto& c : cs.calls) { std::string k = scoped(c.scope, fname(c)); for (auto& s : c.steps) if (s.kind != S_OUT) k += sfmt("|%s%d.%d.%d", s.name.c_str(), s.kind, s.val, s.obj); classes.push_back(k); }
-        std::sort(classes.begin(), classes.end()); classes.erase(std::unique(classes.begin(), classes.end()), classes.end());
-        bool mutated = false; for (auto& m : cs.mutkinds) if (m.compare(0, 4, "noop") != 0) mutated = true;
-        bool nontrivial = cs.calls.size() >= 3 && classes.size() >= 2 && (cs.interleaved || mutated);
-        if (cs.calls.size() >= 3) verif::cls("shape:calls>=3");
-        if (classes.size() >= 2) verif::cls("shape:classes>=2");
-        if (cs.interleaved || mutated) verif::cls("shape:interleaved-or-mutated");
-        if (cs.strictMask) verif::cls("feature:strict-order");
-        if (cs.iocMode) verif::cls("feature:ignore-other-calls");
-        bool sc[3] = {false, false, false}, fio = false, fobj = false, fout = false, fret = false, nocall = false, multi = false, sameclass = false;
-        for (size_t i = 0; i < cs.ex.size(); i++) { auto& e = cs.ex[i]; sc[e.scope] = true; const FuncSpec& f = cs.fs[e.func];
-            if (f.ignoreOther) fio = true; if (f.objects) fobj = true; if (f.nout) fout = true; if (e.hasRet) fret = true; if (e.count == 0) nocall = true; if (e.count > 1) multi = true;
-            for (size_t j = 0; j < i; j++) if (cs.ex[j].scope == e.scope && cs.ex[j].func == e.func) sameclass = true; }
-        if (sc[1] || sc[2]) verif::cls("feature:scopes");
-        if (fio) verif::cls("feature:ignore-other-parameters");
-        if (fobj) verif::cls("feature:objects");
-        if (fout) verif::cls("feature:output-parameters");
-        if (fret) verif::cls("feature:return-values");
-        if (nocall) verif::cls("feature:expect-no-call");
-        if (multi) verif::cls("feature:expectNCalls>1");
-        if (sameclass) verif::cls("feature:several-expectations-on-one-function");
-        if (cs.interleaved) verif::cls("feature:interleaved");
-        if (cs.mutkinds.empty()) verif::cls("mutation:none");
-        for (auto& m : cs.mutkinds) verif::cls(("mutation:" + m).c_str());
-        return nontrivial;
+    std::vector<std::string> classes;
+    for (auto& c : cs.calls) { std::string k = scoped(c.scope, fname(c)); for (auto& s : c.steps) if (s.kind != S_OUT) k += sfmt("|%s%d.%s.%d", s.name.c_str(), s.kind, s.kind == S_IN ? val_key(s.v).c_str() : "", s.obj); classes.push_back(k); }
+    std::sort(classes.begin(), classes.end()); classes.erase(std::unique(classes.begin(), classes.end()), classes.end());
+    bool mutated = false; for (auto& m : cs.mutkinds) if (m.compare(0, 4, "noop") != 0) mutated = true;
+    bool nontrivial = cs.calls.size() >= 3 && classes.size() >= 2 && (cs.interleaved || mutated);
+    if (cs.calls.size() >= 3) verif::cls("shape:calls>=3");
+    if (classes.size() >= 2) verif::cls("shape:classes>=2");
+    if (cs.interleaved || mutated) verif::cls("shape:interleaved-or-mutated");
+    if (cs.strictMask) verif::cls("feature:strict-order");
+    if (cs.iocMode) verif::cls("feature:ignore-other-calls");
+    if (cs.winKind == 1 && !cs.calls.empty()) verif::cls("feature:disable-window");
+    if (cs.winKind == 2 && !cs.calls.empty()) verif::cls("feature:tracing-window");
+    bool sc[3] = {false, false, false}, fio = false, fobj = false, fout = false, fret = false, nocall = false, multi = false, sameclass = false, dead = false, mixed = false, vout = false;
+    for (size_t i = 0; i < cs.ex.size(); i++) { auto& e = cs.ex[i]; sc[e.scope] = true; const FuncSpec& f = cs.fs[e.func];
+        if (f.ignoreOther) fio = true; if (f.objects) fobj = true; if (f.nout) fout = true; if (e.hasRet) { fret = true; verif::cls((std::string("rettype:") + kRetName[f.ret]).c_str()); }
+        if (e.count == 0) nocall = true; if (e.count > 1) multi = true; if (e.dead) dead = true;
+        for (int k = 0; k < f.nout; k++) if (f.okind[k]) vout = true;
+        if (e.how != 2) for (int k = 0; k < f.nin; k++) { verif::cls((std::string("paramtype:") + kTypeName[f.in[k].te]).c_str()); if (f.in[k].te != f.in[k].ta) mixed = true; }
+        for (size_t j = 0; j < i; j++) if (cs.ex[j].scope == e.scope && cs.ex[j].func == e.func) sameclass = true; }
+    if (sc[1] || sc[2]) verif::cls("feature:scopes");
+    if (fio) verif::cls("feature:ignore-other-parameters");
+    if (fobj) verif::cls("feature:objects");
+    if (fout) verif::cls("feature:output-parameters");
+    if (vout) verif::cls("feature:custom-type-output-with-copier");
+    if (mixed) verif::cls("feature:mixed-integer-kinds");
+    if (fret) verif::cls("feature:return-values");
+    if (nocall) verif::cls("feature:expect-no-call");
+    if (multi) verif::cls("feature:expectNCalls>1");
+    if (dead) verif::cls("feature:expectation-declared-while-disabled");
+    if (sameclass) verif::cls("feature:several-expectations-on-one-function");
+    if (cs.interleaved) verif::cls("feature:interleaved");
+    bool eqv = false; for (auto& c : cs.calls) for (auto& s : c.steps) if (s.kind == S_IN && s.variant >= 2) eqv = true;
+    if (eqv) verif::cls("feature:equal-value-other-representation");
+    if (cs.mutkinds.empty()) verif::cls("mutation:none");
+    for (auto& m : cs.mutkinds) verif::cls(("mutation:" + m).c_str());
+    return nontrivial;
+}
+
+// fetches the return value in the decoded way and compares it with the consumed expectation's (or the default); 0 ok / 1 violation
+int fetch_and_check(MockActualCall& ac, MockSupport* scope, const CallSpec& c, const ExpSpec* e, int ei, const FuncSpec* f, bool traced, const std::string& where, const std::string& scenario) {
+    bool viaScope = c.fetch == 1 || c.fetch == 4 || c.fetch == 6;
+    bool want = e && e->hasRet;
+    bool has = viaScope ? scope->hasReturnValue() : ac.hasReturnValue();
+    if (has != want) return verif::fail("C08:return-value", "%s: hasReturnValue() is %d, the consumed expectation %s a return value [%s]", where.c_str(), has, want ? "has" : "does not have", scenario.c_str());
+    if (c.fetch <= 1) {                              // the generic MockNamedValue
+        MockNamedValue v = viaScope ? scope->returnValue() : ac.returnValue();
+        if (!want) {
+            if (!traced || viaScope) { int d = viaScope ? scope->returnIntValueOrDefault(77) : ac.returnIntValueOrDefault(77);
+                V_CHECK(d == 77, "C08:return-value", "%s: returnIntValueOrDefault(77) gave %d although no return value was specified [%s]", where.c_str(), d, scenario.c_str()); }
+            return 0;
+        }
+        std::string type = v.getType().asCharString();
+        V_CHECK(type == kRetTypeString[f->ret], "C08:return-value", "%s: returned a value of type <%s>, the consumed expectation #%d returns <%s> [%s]", where.c_str(), type.c_str(), ei, kRetTypeString[f->ret], scenario.c_str());
+        RV got = from_named(v, f->ret), exp = expected_ret(f->ret, ei);
+        V_CHECK(rv_equal(f->ret, got, exp), "C08:return-value", "%s: returned %s, but the call consumed expectation #%d (declaration order) whose return value is %s [%s]", where.c_str(), rv_text(f->ret, got).c_str(), ei, rv_text(f->ret, exp).c_str(), scenario.c_str());
+        verif::cls("checked:return-value");
+        return 0;
+    }
+    // typed getters: the plain form only when there is a value (on a call without one it fails a type check of the current test)
+    int ret = f ? f->ret : R_INT; if (ret == R_NONE) ret = R_INT;
+    if (!want && traced && !viaScope) return 0;      // the trace object's ...OrDefault forms are not part of this property
+    bool orDefault = !want || c.fetch >= 5;
+    RV exp = want ? expected_ret(ret, ei) : default_ret(ret, true);
+    RV dflt = default_ret(ret, want ? exp.i == 0 : true);
+    if (!want) exp = dflt;
+    RV got = typed_fetch(ac, scope, viaScope, ret, orDefault, dflt);
+    V_CHECK(rv_equal(ret, got, exp), "C08:return-value", "%s: %s %s getter%s returned %s, expected %s (%s) [%s]", where.c_str(), viaScope ? "MockSupport" : "call", kRetName[ret], orDefault ? "OrDefault" : "",
+            rv_text(ret, got).c_str(), rv_text(ret, exp).c_str(), want ? sfmt("return value of the consumed expectation #%d", ei).c_str() : "the default, no return value specified", scenario.c_str());
+    verif::cls(want ? (orDefault ? "checked:typed-return-OrDefault-with-value" : "checked:typed-return") : "checked:typed-return-OrDefault-default");
+    return 0;
 }
 
 int run_case(Reader& r, bool& nontrivial, std::string& desc) {
     Case cs; decode(r, cs);
     desc = render(cs);
     if (verif::g_explain) fprintf(stderr, "CASE %s\n", desc.c_str());
-
     nontrivial = note_features(cs);
     verif::cls("mode:direct");
 
     // -------- set up the real scenario
     RecReporter rep;
     MockSupport root;
-    struct Clear { MockSupport& m; ~Clear() { m.clear(); } } clear_at_exit{root};
+    struct Clear { MockSupport& m; ~Clear() { m.clear(); m.removeAllComparatorsAndCopiers(); } } clear_at_exit{root};
     root.setMockFailureStandardReporter(&rep);
     root.setActiveReporter(&rep);
     root.setDefaultComparatorsAndCopiersRepository();
     root.crashOnFailure(false);
+    if (cs.installStyle == 0) install_types(root, 0);
     MockSupport* sc[3] = {&root, root.getMockSupportScope("a"), root.getMockSupportScope("b")};
+    if (cs.installStyle != 0) install_types(root, cs.installStyle);      // reaches the existing scopes by propagation
     sc[1]->setActiveReporter(&rep); sc[2]->setActiveReporter(&rep);
     for (int s = 0; s < 3; s++) if (cs.strictMask & (1 << s)) sc[s]->strictOrder();
     if (cs.iocMode == 1) root.ignoreOtherCalls(); else if (cs.iocMode == 2) sc[1]->ignoreOtherCalls(); else if (cs.iocMode == 3) sc[2]->ignoreOtherCalls();
@@ -574,67 +911,89 @@ int run_case(Reader& r, bool& nontrivial, std::string& desc) {
     Model m; m.fs = cs.fs; m.ex = &cs.ex; m.iocMode = cs.iocMode; m.strictMask = cs.strictMask;
     std::string outcome = "pass";
     bool stopped = false;
+    std::vector<std::string> tracedNames;
     for (size_t k = 0; k < cs.calls.size() && !stopped; k++) {
         CallSpec& c = cs.calls[k];
         MockSupport* scope = sc[c.scope];
-        uint8_t obuf[16][24]; memset(obuf, 0xEE, sizeof obuf);
-        if (c.steps.size() > 16) c.steps.resize(16);
+        if (c.scope != 0 && (k & 1)) {      // a named scope is looked up again, as mock("a") does on every use: it must be the same object
+            scope = root.getMockSupportScope(kScope[c.scope]);
+            V_CHECK(scope == sc[c.scope], "C08:scope-identity", "looking up scope \"%s\" a second time gave a different MockSupport object [%s]", kScope[c.scope], desc.c_str());
+        }
+        if (cs.winKind && k == cs.winStart) { apply_window(sc, cs, true); m.window(cs.winKind, cs.winTarget, true); }
+        if (cs.winKind && k == cs.winStart + cs.winLen) { apply_window(sc, cs, false); m.window(cs.winKind, cs.winTarget, false); }
+        OutBuf obuf[16]; reset_outbufs(obuf, 16);
         std::string fn = fname(c);
+        std::string where = sfmt("actual call #%zu %s", k, scoped(c.scope, fn).c_str());
         // begin
         int before = rep.n; AllowSet due; bool tol = false;
+        scope->setDefaultComparatorsAndCopiersRepository();
         MockActualCall& ac = scope->actualCall(fn.c_str());
         bool isdue = m.begin(c, due, tol);
-        if (verif::g_explain) fprintf(stderr, "  #%zu %s begin: reports=%d%s\n", k, scoped(c.scope, fn).c_str(), rep.n - before, isdue ? " (model: failure due)" : "");
+        if (verif::g_explain) fprintf(stderr, "  #%zu %s begin: reports=%d%s%s\n", k, scoped(c.scope, fn).c_str(), rep.n - before, isdue ? " (model: failure due)" : "", m.ignored ? " (model: ignored)" : "");
         int j = judge({(int)k, "begin", -1}, isdue, due, tol, rep, before, desc, outcome);
         if (j == 1) return 1;
-        if (j == 2) { stopped = true; break; }
-        if (m.ignored) verif::cls("call:ignored-by-ignoreOtherCalls");
-        if (!m.ignored && m.stale_candidate() && verif::known("C08:stale-parameter-match-state")) {
-            // known finding: this call can see match flags left over from an earlier call; the scenario is not judged from here on
-            outcome = "excluded(stale-parameter-match-state)"; stopped = true; break;
+        size_t resume = 0; bool ownFailure = false;
+        if (j == 2) { stopped = true; ownFailure = !tol; }
+        if (!stopped) {
+            if (m.traced) { verif::cls("call:traced"); tracedNames.push_back(scoped(c.scope, fn)); }
+            else if (m.ignored) verif::cls(m.disabled[c.scope] ? "call:ignored-while-disabled" : "call:ignored-by-ignoreOtherCalls");
+            if (!m.ignored && m.stale_candidate() && verif::known("C08:stale-parameter-match-state")) { outcome = "excluded(stale-parameter-match-state)"; stopped = true; break; }
+            // parameters and object, in the decoded order
+            for (size_t si = 0; si < c.steps.size(); si++) {
+                const Step& s = c.steps[si];
+                before = rep.n; due.clear();
+                apply_step(ac, s, obuf[si]);
+                isdue = m.step(c, s, due);
+                if (verif::g_explain) fprintf(stderr, "     step %zu kind=%d %s: reports=%d%s\n", si, s.kind, s.name.c_str(), rep.n - before, isdue ? " (model: failure due)" : "");
+                j = judge({(int)k, "parameter/object step", (int)si}, isdue, due, false, rep, before, desc, outcome);
+                if (j == 1) return 1;
+                if (j == 2) { stopped = true; ownFailure = true; resume = si + 1; break; }
+            }
         }
-        // parameters and object, in the decoded order
-        for (size_t si = 0; si < c.steps.size(); si++) {
-            const Step& s = c.steps[si];
-            before = rep.n; due.clear();
-            apply_step(ac, s, obuf[si]);
-            isdue = m.step(c, s, due);
-            if (verif::g_explain) fprintf(stderr, "     step %zu kind=%d %s: reports=%d%s\n", si, s.kind, s.name.c_str(), rep.n - before, isdue ? " (model: failure due)" : "");
-            j = judge({(int)k, "parameter/object step", (int)si}, isdue, due, false, rep, before, desc, outcome);
-            if (j == 1) return 1;
-            if (j == 2) { stopped = true; break; }
+        if (stopped) {
+            // a reporter that returns lets the mocked function go on: the rest of the chain must not report again ("fails the test once")
+            if (ownFailure) {
+                int n0 = rep.n;
+                for (size_t si = resume; si < c.steps.size(); si++) apply_step(ac, c.steps[si], obuf[si]);
+                (void)ac.hasReturnValue();
+                verif::cls("checked:rest-of-failed-call-silent");
+                V_CHECK(rep.n == n0, "C08:reported-more-than-once", "%s had failed already (\"%s\"); passing its remaining parameters reported again: \"%s\" [%s]", where.c_str(),
+                        first_line(rep.msgs[(size_t)n0 - 1]).c_str(), first_line(rep.msgs[(size_t)n0]).c_str(), desc.c_str());
+            }
+            break;
         }
-        if (stopped) break;
         AllowSet deferred;
         m.finish(c, deferred);
         bool unmatched = !m.ignored && m.matched < 0;
         // return value (finalises the call)
         if (c.fetch != 2) {
             before = rep.n;
-            bool has = c.fetch == 0 ? ac.hasReturnValue() : scope->hasReturnValue();
-            MockNamedValue v = c.fetch == 0 ? ac.returnValue() : scope->returnValue();
-            j = judge({(int)k, "return value fetch", -1}, unmatched, deferred, false, rep, before, desc, outcome);
-            if (verif::g_explain) fprintf(stderr, "     fetch(%d): reports=%d has=%d\n", c.fetch, rep.n - before, has);
-            if (j == 1) return 1;
-            if (j == 2) { stopped = true; break; }
+            bool viaScope = c.fetch == 1 || c.fetch == 4 || c.fetch == 6;
+            if (unmatched) {
+                (void)(viaScope ? scope->hasReturnValue() : ac.hasReturnValue());
+                j = judge({(int)k, "return value fetch", -1}, true, deferred, false, rep, before, desc, outcome);
+                if (j == 1) return 1;
+                stopped = true; break;
+            }
             const ExpSpec* e = m.matched >= 0 ? &cs.ex[(size_t)m.matched] : nullptr;
-            if (check_return(v, has, e, e ? &cs.fs[e->func] : nullptr, m.matched, sfmt("actual call #%zu %s", k, scoped(c.scope, fn).c_str()), desc)) return 1;
-            if (!(e && e->hasRet)) {
-                int dflt = c.fetch == 0 ? ac.returnIntValueOrDefault(77) : scope->returnIntValueOrDefault(77);
-                V_CHECK(dflt == 77, "C08:return-value", "actual call #%zu: returnIntValueOrDefault(77) gave %d although no return value was specified [%s]", k, dflt, desc.c_str());
-            } else verif::cls("checked:return-value");
+            const FuncSpec* f = e ? &cs.fs[e->func] : (c.unknown ? nullptr : &cs.fs[c.func]);
+            if (fetch_and_check(ac, scope, c, e, m.matched, f, m.traced, where, desc)) return 1;
+            j = judge({(int)k, "return value fetch", -1}, false, deferred, false, rep, before, desc, outcome);
+            if (j == 1) return 1;
         } else if (unmatched) { m.pendingSet[c.scope] = true; m.pending[c.scope] = deferred; verif::cls("call:unmatched-finalised-later"); }
         // output parameters of a successful (or ignored) call
         if (!unmatched) {
             const ExpSpec* e = m.matched >= 0 ? &cs.ex[(size_t)m.matched] : nullptr;
             for (size_t si = 0; si < c.steps.size(); si++) {
                 const Step& s = c.steps[si]; if (s.kind != S_OUT) continue;
-                std::vector<uint8_t> want(24, 0xEE);
-                if (e) { int oi = m.out_index(cs.fs[e->func], s.name); if (oi >= 0 && !e->unmod[oi]) { std::copy(e->out[oi].begin(), e->out[oi].end(), want.begin()); verif::cls("checked:output-bytes"); } }
-                if (memcmp(obuf[si], want.data(), 24) != 0) {
-                    std::string g, w; for (int q = 0; q < 12; q++) { g += sfmt("%02X ", obuf[si][q]); w += sfmt("%02X ", want[(size_t)q]); }
-                    return verif::fail("C08:output-bytes", "actual call #%zu %s output parameter %s: buffer is %s.. but the consumed expectation #%d provides %s.. (0xEE = untouched) [%s]",
-                                       k, scoped(c.scope, fn).c_str(), s.name.c_str(), g.c_str(), m.matched, w.c_str(), desc.c_str());
+                std::vector<uint8_t> want(24, 0xEE); int wantobj = (int)0xEEEEEEEE;
+                if (e) { int oi = m.out_index(cs.fs[e->func], s.name);
+                    if (oi >= 0 && s.okind) { wantobj = e->outv[oi].content; verif::cls("checked:output-custom-type"); }
+                    else if (oi >= 0 && !e->unmod[oi]) { std::copy(e->out[oi].begin(), e->out[oi].end(), want.begin()); verif::cls("checked:output-bytes"); } }
+                if (memcmp(obuf[si].bytes, want.data(), 24) != 0 || obuf[si].obj.content != wantobj) {
+                    std::string g, w; for (int q = 0; q < 12; q++) { g += sfmt("%02X ", obuf[si].bytes[q]); w += sfmt("%02X ", want[(size_t)q]); }
+                    return verif::fail("C08:output-bytes", "%s output parameter %s: buffer is %s.. / object %#x but the consumed expectation #%d provides %s.. / object %#x (0xEE = untouched) [%s]",
+                                       where.c_str(), s.name.c_str(), g.c_str(), (unsigned)obuf[si].obj.content, m.matched, w.c_str(), (unsigned)wantobj, desc.c_str());
                 }
             }
         }
@@ -651,6 +1010,13 @@ int run_case(Reader& r, bool& nontrivial, std::string& desc) {
         }
     }
     if (!stopped) {
+        if (!tracedNames.empty()) {      // every traced call is in the trace, in order
+            std::string trace = root.getTraceOutput(); size_t at = 0;
+            for (auto& n : tracedNames) { size_t p = trace.find("\nFunction name:" + n, at);
+                V_CHECK(p != std::string::npos, "C08:trace", "tracing was on but the call to %s is not in getTraceOutput() (in call order) [%s]", n.c_str(), desc.c_str()); at = p + 1; }
+            verif::cls("checked:trace-output");
+        }
+        if (cs.winKind && cs.calls.size() > cs.winStart && cs.calls.size() <= cs.winStart + cs.winLen) { apply_window(sc, cs, false); m.window(cs.winKind, cs.winTarget, false); }
         int before = rep.n; AllowSet due;
         root.checkExpectations();      // may delete the scopes (failTest clears first): sc[1], sc[2] are dead from here on
         bool isdue = m.end(due);
@@ -666,10 +1032,11 @@ int run_case(Reader& r, bool& nontrivial, std::string& desc) {
 
 // ---------------------------------------------------------------------------------------------- plugin mode
 // 2..4 scenarios run as consecutive tests of ONE private TestRegistry / TestResult with the repository's MockSupportPlugin
-// installed, on the global mock() with the default (terminating) reporter during the test body and the plugin's own reporter
-// at end of test.  Judged per test: number of failures (one deviation -> exactly one failure; a passing scenario -> none; a
-// test that already failed by its own check -> no additional mock failure), first line of the mock failure against the
-// model's set, and that nothing of test k is left in mock() when test k+1 starts.
+// installed (comparator and copier installed through the plugin), on the global mock() with the default (terminating)
+// reporter during the test body and the plugin's own reporter at end of test.  Judged per test: number of failures (one
+// deviation -> exactly one failure; a passing scenario -> none; a test that already failed by its own check -> no additional
+// mock failure), first line of the mock failure against the model's set, and that nothing of test k is left in mock() when
+// test k+1 starts.
 struct Prediction { bool fails; bool atEnd; AllowSet set; int call; };
 
 // the model alone over one scenario: the first position at which a report is due
@@ -678,7 +1045,8 @@ Prediction simulate(Case& cs) {
     for (auto& e : cs.ex) e.consumed = 0;
     for (size_t k = 0; k < cs.calls.size(); k++) {
         CallSpec& c = cs.calls[k];
-        if (c.steps.size() > 16) c.steps.resize(16);
+        if (cs.winKind && k == cs.winStart) m.window(cs.winKind, cs.winTarget, true);
+        if (cs.winKind && k == cs.winStart + cs.winLen) m.window(cs.winKind, cs.winTarget, false);
         AllowSet due; bool tol = false;
         if (m.begin(c, due, tol)) return {true, false, due, (int)k};
         for (auto& st : c.steps) { due.clear(); if (m.step(c, st, due)) return {true, false, due, (int)k}; }
@@ -709,14 +1077,18 @@ void plugin_body(void* arg) {
     if (t.own == 3) CHECK(true);
     for (size_t k = 0; k < cs.calls.size(); k++) {
         CallSpec& c = cs.calls[k];
-        uint8_t obuf[16][24]; memset(obuf, 0xEE, sizeof obuf);
+        if (cs.winKind && k == cs.winStart) apply_window(sc, cs, true);
+        if (cs.winKind && k == cs.winStart + cs.winLen) apply_window(sc, cs, false);
+        OutBuf obuf[16]; reset_outbufs(obuf, 16);
         std::string fn = fname(c);
+        sc[c.scope]->setDefaultComparatorsAndCopiersRepository();
         MockActualCall& ac = sc[c.scope]->actualCall(fn.c_str());       // any mock failure in here ends the test (default reporter)
         for (size_t si = 0; si < c.steps.size() && si < 16; si++) apply_step(ac, c.steps[si], obuf[si]);
-        if (c.fetch == 0) { (void)ac.hasReturnValue(); (void)ac.returnValue(); }
-        else if (c.fetch == 1) { (void)sc[c.scope]->hasReturnValue(); (void)sc[c.scope]->returnValue(); }
+        bool viaScope = c.fetch == 1 || c.fetch == 4 || c.fetch == 6;
+        if (c.fetch != 2) { if (viaScope) { (void)sc[c.scope]->hasReturnValue(); (void)sc[c.scope]->returnValue(); } else { (void)ac.hasReturnValue(); (void)ac.returnValue(); } }
         if (c.probe) (void)mock().expectedCallsLeft();
     }
+    if (cs.winKind && cs.calls.size() > cs.winStart && cs.calls.size() <= cs.winStart + cs.winLen) apply_window(sc, cs, false);
     if (t.own == 2) FAIL(kOwnCheckText);
 }
 
@@ -775,6 +1147,8 @@ int run_plugin_case(Reader& r, bool& nontrivial, std::string& desc) {
     {
         mock().clear();
         MockSupportPlugin plugin;
+        plugin.installComparator("VType", g_cmp);
+        plugin.installCopier("VOut", g_cpy);
         TestRegistry registry;
         TestResult result(out);
         std::vector<ScenarioShell*> shells;
@@ -827,7 +1201,7 @@ extern "C" void verif_init(void) { verif::install_fake_time(); }
 extern "C" int verif_case(const uint8_t* data, size_t size) {
     Reader r(data, size);
     bool nontrivial = false; std::string desc;
-    bool plugin_mode = size > 0 && ((data[0] >> 5) & 3) == 3;     // direct mode uses bits 0..4 of the first byte only
+    bool plugin_mode = size > 0 && ((data[0] >> 5) & 3) == 3;     // direct mode uses the other bits of the first byte
     int rc = plugin_mode ? run_plugin_case(r, nontrivial, desc) : run_case(r, nontrivial, desc);
     verif::note_case(nontrivial, r.h, [&] { return desc; });
     return rc;
